@@ -61,6 +61,27 @@ fn craft_objstm_file_n(pairs: &[(u32, Object)], n_entry: usize) -> Vec<u8> {
     f.extend_from_slice(&rows); f.extend_from_slice(format!("\nendstream\nendobj\nstartxref\n{}\n%%EOF", off3).as_bytes());
     f
 }
+/// ONE object stream whose index block lists some OFFSETS twice, under different object numbers (only the first pair of an
+/// offset is used — lopdf fix of F-C04-h); members are large, so that the pairs are spread over several workers
+fn craft_dup_offset_file(r: &mut Rng) -> Vec<u8> {
+    let n_pairs = 48 + r.usize(32);
+    let mut body: Vec<u8> = vec![]; let mut offs: Vec<usize> = vec![]; let mut index = String::new();
+    let mut dup_at: Vec<usize> = vec![15, 16, 31, 32, 47]; for _ in 0..r.usize(6) { dup_at.push(1 + r.usize(n_pairs - 1)); }
+    for j in 0..n_pairs {
+        let off = if j > 0 && dup_at.contains(&j) { offs[j - 1 - r.usize(j.min(3))] } else {
+            let o = body.len(); body.push(b'['); for _ in 0..(1500 + r.usize(2500)) { body.extend_from_slice(format!("{} ", j).as_bytes()); } body.extend_from_slice(b"] "); o };
+        offs.push(off); index.push_str(&format!("{} {} ", 100 + j, off));
+    }
+    let first = index.len();
+    let mut content = index.into_bytes(); content.extend_from_slice(&body);
+    let mut f = b"%PDF-1.5\n".to_vec();
+    let o1 = f.len(); f.extend_from_slice(b"1 0 obj\n<</Type/Catalog>>\nendobj\n");
+    let o2 = f.len(); f.extend_from_slice(format!("2 0 obj\n<</Type/ObjStm/N {}/First {}/Length {}>>\nstream\n", n_pairs, first, content.len()).as_bytes());
+    f.extend_from_slice(&content); f.extend_from_slice(b"\nendstream\nendobj\n");
+    let x = f.len();
+    f.extend_from_slice(format!("xref\n0 3\n0000000000 65535 f \n{:010} 00000 n \n{:010} 00000 n \ntrailer\n<</Size 200/Root 1 0 R>>\nstartxref\n{}\n%%EOF", o1, o2, x).as_bytes());
+    f
+}
 /// many pairs of in-use entries whose objects carry the SAME `n 0 obj` header with different content
 fn craft_alias_file(r: &mut Rng) -> Vec<u8> {
     let pairs = 5 + r.usize(60);
@@ -377,6 +398,15 @@ run in the no-default-features (sequential) build. Non-trivial = file with >= 2 
         if n_entry != n { c.count("dup_in_stream.n_entry_differs"); }
         let file = craft_objstm_file_n(&pairs, n_entry);
         order_independent(c, &file, "dup_in_stream", &mut pool_loads);
+    }
+    // ---- offsets listed twice inside ONE container: which pair keeps the object is decided in index order, on every pool
+    for i in 0..c.n(3, 40) {
+        let Some(mut r) = c.case("dup_offsets", i) else { continue };
+        let file = craft_dup_offset_file(&mut r);
+        // (small duplicate-offset files are compared with the Lean reader in C04's `objstm-dup-offsets`; these are 100-300 kB)
+        order_independent_nomodel(c, &file, "dup_offsets", &mut pool_loads);
+        // and against the single-thread load explicitly (the first load above runs on the global pool)
+        if let (Ok(a), Ok(b)) = (load_in_pool(&file, 1), load_with_order(&file, None)) { if a != b { c.oracle_fail("schedule-dependent", "dup_offsets: the load on the global pool differs from the one-thread load", json!({"file": hex(&file)})); } }
     }
     for i in 0..c.n(60, 600) {
         let Some(mut r) = c.case("alias_entries", i) else { continue };
